@@ -67,9 +67,17 @@ def load_known() -> dict:
     path = os.path.join(ROOT, 'known_findings.json')
     try:
         with open(path) as f:
-            return json.load(f)
+            known = json.load(f)
     except FileNotFoundError:
-        return {'findings': [], 'fixed': []}
+        known = {'findings': [], 'fixed': []}
+    # development aid only (never set by the registered commands): extra
+    # candidate entries under review, see tools/AGENT_BRIEF_S.md
+    extra = os.environ.get('VF_EXTRA_KNOWN')
+    if extra and os.path.exists(extra):
+        with open(extra) as f:
+            known = dict(known)
+            known['findings'] = list(known.get('findings', [])) + json.load(f)
+    return known
 
 
 def known_sigs(prop_id: str) -> dict:
